@@ -2,6 +2,7 @@ package chainsim
 
 import (
 	"fmt"
+	"os"
 	"runtime/debug"
 	"time"
 
@@ -134,6 +135,8 @@ func setupProfile(e *Env, o core.RunOpts) error {
 			return setupTSS(e, o)
 		}
 		return setupTransition(e, o)
+	case "C06", "C07", "C15", "C16":
+		return setupFeeds(e, o)
 	case "C04", "C18":
 		return setupTransition(e, o)
 	case "C09":
@@ -326,5 +329,69 @@ func setupTransition(e *Env, o core.RunOpts) error {
 		e.MaxSteps = e.Ch.Range("cfg.steps", 80, 260)
 	}
 	e.DrainMax = int(tp.CreationPeriod) + int(tp.SigningPeriod*tp.MaxSigningAttempt) + 30
+	return nil
+}
+
+// setupFeeds: voters (delegations + restaked coins), signal votes, validators feeding prices, data requests, module-level locks.
+func setupFeeds(e *Env, o core.RunOpts) error {
+	tokens := drawValTokens(e, 1, 7)
+	for i := range tokens {
+		if e.Ch.Bool("cfg.feeds.bigstake", 60) {
+			tokens[i] = 9_000_000_000_000_000 // near 2^63 totals
+		}
+	}
+	op := drawOracleParams(e)
+	op.InactivePenaltyDuration = uint64(time.Duration(e.Ch.Range("cfg.oracle.penalty2", 1, 20)) * time.Second)
+	fp := drawFeedsParams(e)
+	e.Shared["oracle.genesis.params"] = op
+	allowed := [][]string{{"uusd"}, {"uusd", "uatom"}, {}}[e.Ch.Intn("cfg.restake.allowed", 3)]
+	e.Desc("feeds params: grace=%d interval=[%d,%d] step=%d maxfeeds=%d cooldown=%d update_every=%d quorum=%s discrepancy=%d; restake allowed=%v; oracle exp=%d penalty=%s",
+		fp.GracePeriod, fp.MinInterval, fp.MaxInterval, fp.PowerStepThreshold, fp.MaxCurrentFeeds, fp.CooldownTime, fp.CurrentFeedsUpdateInterval, fp.PriceQuorum, fp.AllowableBlockTimeDiscrepancy, allowed,
+		op.ExpirationBlockCount, time.Duration(op.InactivePenaltyDuration))
+	cfg := world.Config{Seed: o.Seed, ChainID: "simband", ValTokens: tokens, NumUsers: 8, Replicas: 1, GenesisTime: baseTime}
+	faults := drawFaults(e, false)
+	faults.AbsentVote, faults.NilVote = 0, 0 // no downtime slashing: share/token rate stays 1
+	if o.Prop == "C06" || o.Prop == "C15" {
+		faults.TimeJump /= 2
+	}
+	var dss []dsSpec
+	treas := world.NewAccount(o.Seed, "treasury")
+	for i := 0; i < 4; i++ {
+		dss = append(dss, dsSpec{Fee: sdk.NewCoins(), Treasury: treas, Exec: []byte(fmt.Sprintf("#!/bin/sh\necho %d", i))})
+	}
+	cfg.GenesisMods = append(cfg.GenesisMods, govGenesis(4*time.Second), quietEconomy(), oracleGenesis(e, op, dss), feedsGenesis(fp, allowed))
+	w, err := world.New(e.Ch, e.Log, e.St, cfg, o.Scratch)
+	if err != nil {
+		return err
+	}
+	e.W = w
+	w.F = faults
+	voters := w.Users[:4]
+	ss := NewStakeShadow(w, allowed, fp.MaxCurrentFeeds)
+	ss.Voters = voters
+	e.Shared["stake.shadow"] = ss
+	e.Shared["feeds.shadow"] = NewFeedsShadow()
+	signals := []string{"CS:BTC-USD", "CS:ETH-USD", "CS:BAND-USD", "X", "CS:A-VERY-LONG-SIGNAL-ID-0123456789", "CS:SOL-USD", "CS:ATOM-USD", "s8"}
+	lazy := map[string]int{}
+	for _, v := range w.Vals {
+		lazy[v.Val.String()] = []int{0, 0, 100, 400}[e.Ch.Intn("cfg.feeder.lazy", 4)]
+	}
+	oa := &OracleActor{MaxOpen: 3, ReqRate: e.Ch.Intn("cfg.feeds.reqrate", 250), Scripts: []int{scriptEcho, scriptSimple}, NumDS: len(dss), ActivateP: 1000, Byz: 0, ReactivateP: 250}
+	sa := &StakeActor{Voters: voters, Rate: 150 + e.Ch.Intn("cfg.stake.rate", 500), Denoms: []string{"uusd", "uatom", "uband"}, VaultKeys: []string{"vaultA", "vaultB"}}
+	if o.Prop == "C16" || os.Getenv("VERIF_DEBUG_MODULEOPS") != "" {
+		sa.ModuleP = 60 + e.Ch.Intn("cfg.stake.module", 200)
+	}
+	va := &VoteActor{Voters: voters, Signals: signals, Rate: 150 + e.Ch.Intn("cfg.vote.rate", 500)}
+	if o.Prop == "C07" {
+		va.WrapP = e.Ch.Intn("cfg.vote.wrap", 120)
+	}
+	fa := &FeederActor{Lazy: lazy, ByzP: e.Ch.Intn("cfg.feeder.byz", 80), SkewP: e.Ch.Intn("cfg.feeder.skew", 80)}
+	e.Actors = append(e.Actors, oa, sa, va, fa)
+	e.Monitors = append(e.Monitors, &C06{}, &C07{}, &C15{}, &C16{}, NewC01(), &C09{})
+	e.MaxSteps = e.Ch.Range("cfg.steps", 40, 110)
+	if o.Thorough {
+		e.MaxSteps = e.Ch.Range("cfg.steps", 60, 220)
+	}
+	e.DrainMax = 0
 	return nil
 }
